@@ -1,5 +1,5 @@
 //! C16: text / comparison / arithmetic commands against Strings.tla.
-use crate::c02::quote_arg;
+use crate::c02::{lit_arg as quote_arg, make_writable};
 use crate::common::*;
 use duckscript::types::runtime::Context;
 use serde_json::{json, Value};
@@ -92,7 +92,8 @@ pub fn replay(args: &[String]) {
 const ALPHA: &[char] = &['a', 'b', 'A', 'Z', 'é', 'É', '😀', ' ', ' ', '\t', '\u{a0}', '\u{3000}', 'x', '/', ',', '1', '中', '\u{10ffff}', '"', '#', '\n'];
 fn rand_text(r: &mut Rng, maxlen: usize, letters_only: bool) -> String {
     let n = if r.chance(1, 10) { 0 } else { r.below(maxlen + 1) };
-    (0..n).map(|_| if letters_only { *r.pick(&['a', 'b', 'A', 'Z', 'é', 'É', 'q', 'M']) } else if r.chance(4, 5) { *r.pick(ALPHA) } else { char::from_u32(0x21 + r.below(0x3000) as u32).unwrap_or('x') }).collect()
+    let t: String = (0..n).map(|_| if letters_only { *r.pick(&['a', 'b', 'A', 'Z', 'é', 'É', 'q', 'M']) } else if r.chance(4, 5) { *r.pick(ALPHA) } else { char::from_u32(0x21 + r.below(0x3000) as u32).unwrap_or('x') }).collect();
+    make_writable(&t)
 }
 pub fn record(args: &[String]) {
     let seed: u64 = args[0].parse().unwrap();
